@@ -76,8 +76,11 @@ def std(prop, macro, insts_q, insts_t, unwind=lambda i: i.bytes + 4, group='', b
     """register `macro` for each instantiation with the standard argument tail"""
     for tier, insts in (('quick', insts_q), ('thorough', insts_t)):
         for i in insts:
+            kw2 = dict(kw)
+            if tier == 'thorough':
+                kw2.setdefault('cap', 1500)
             add(H(prop, f"{macro}_{i.tag}", macro, f"{unwind(i)}, {i.std()}", tier=tier, inst=i.label,
-                  bound=f"{bound}; unwind {unwind(i)}", funcs=group, **kw))
+                  bound=f"{bound}; unwind {unwind(i)}", funcs=group, **kw2))
 
 
 # ---------------------------------------------------------------- C01
@@ -118,8 +121,11 @@ def both(prop, macro, insts_q, insts_t, unwind=lambda i: i.n + 2, signs=('u', 'i
             for i in insts:
                 T = i.U if sg == 'u' else i.I if sg == 'i' else f"{i.U}, {i.I}"
                 nm = f"{macro}_{sg}_{i.tag}" if sg != 'x' else f"{macro}_{i.tag}"
+                kw2 = dict(kw)
+                if tier == 'thorough':
+                    kw2['cap'] = max(kw2.get('cap', 300), 1500)
                 add(H(prop, nm, macro, f"{unwind(i)}, {T}, {i.digit}, {i.n}", tier=tier, inst=i.label,
-                      funcs={'u': 'BUint ', 'i': 'BInt ', 'x': 'BUint+BInt '}[sg] + group, bound=f"{bound}; unwind {unwind(i)}", **kw))
+                      funcs={'u': 'BUint ', 'i': 'BInt ', 'x': 'BUint+BInt '}[sg] + group, bound=f"{bound}; unwind {unwind(i)}", **kw2))
 
 
 # ---------------------------------------------------------------- C06
@@ -283,6 +289,9 @@ def c03_set(i, gen, tier, cap, path='all', signed=True, unsigned=True, tagx=''):
                   cap=cap if small else max(cap, 3600), inst=i.label, funcs='BInt ' + pf, bound=bnd, core=False, mem_gb=28))
 
 
+for i, tier, cap in ((I(8, 3), 'thorough', 7200), (I(8, 4), 'thorough', 10800), (I(16, 3), 'thorough', 10800)):
+    add(H('C03', f"c03_u_semi_{i.tag}", 'c03_u_semi', f"{i.n + 2}, {i.U}, {i.digit}, {i.n}, {_x(i, False)}", tier=tier, cap=cap, inst=i.label, core=False, mem_gb=12,
+          funcs='BUint / and % (Knuth D incl. q-hat corrections and add-back)', bound='all dividends; divisor digits over the boundary alphabet; postcondition n = q*d + r, r < d'))
 c03_set(I(8, 1), 'any', 'quick', 600)
 c03_set(I(8, 2), 'any', 'quick', 900, path='small')
 c03_set(I(16, 1), 'any', 'quick', 900)
@@ -450,7 +459,7 @@ for sg in ('u', 'i'):
     c10_str(I(8, 1), sg, 4, 36, 36, 'quick')
     c10_str(I(8, 1), sg, 3, 2, 36, 'quick')
     c10_str(I(8, 1), sg, 10, 10, 10, 'thorough', cap=7200)
-    c10_str(I(8, 1), sg, 10, 3, 3, 'thorough', cap=7200)
+    c10_str(I(8, 1), sg, 10, 3, 3, 'quick', cap=1800)
     c10_str(I(8, 1), sg, 6, 4, 4, 'thorough')
     c10_str(I(8, 1), sg, 5, 8, 8, 'thorough')
     c10_str(I(8, 1), sg, 7, 3, 3, 'thorough')
